@@ -328,7 +328,7 @@ def parts(ctx):
     ps += [Part("approx%02d" % i, part, ("approx", i, 20 if q else 600)) for i in range(4)]
     ps += [Part("lutmix%02d" % i, part, ("lutmix", i, 14 if q else 400)) for i in range(2)]
     ps += [Part("tall%02d" % i, part, ("tall", i, 10 if q else 300)) for i in range(2)]
-    ps += [Part("approx16-%02d" % i, part, ("approx16", i, 14 if q else 400)) for i in range(2)]
+    ps += [Part("approx16-%02d" % i, part, ("approx16", i, 20 if q else 500)) for i in range(2)]
     return ps
 
 
